@@ -20,6 +20,8 @@ const ModPath = "github.com/cube2222/octosql"
 // Program is the type-checked view of /repo's working tree.
 type Program struct {
 	Root   string
+	// AlphaRenamed counts the functions whose variables were given their baseline names in memory (see alpha.go).
+	AlphaRenamed int
 	Fset   *token.FileSet
 	Pkgs   []*packages.Package
 	byPath map[string]*packages.Package
@@ -72,11 +74,32 @@ func Load(goarch string, overlay map[string][]byte) (*Program, error) {
 		Tests:   false,
 		Overlay: overlay,
 	}
+	renamed := 0
+	cfg.ParseFile = alphaParseFile(root, &renamed)
 	pkgs, err := packages.Load(cfg, "./...")
 	if err != nil {
 		return nil, fmt.Errorf("packages.Load: %w", err)
 	}
-	p := &Program{Root: root, Fset: fset, byPath: map[string]*packages.Package{}, GOARCH: goarch}
+	if renamed > 0 {
+		// the in-memory renaming must never be the reason a tree does not type-check: fall back to the source names
+		bad := false
+		for _, pkg := range pkgs {
+			if len(pkg.Errors) > 0 {
+				bad = true
+			}
+		}
+		if bad {
+			cfg.ParseFile = nil
+			cfg.Fset = token.NewFileSet()
+			fset = cfg.Fset
+			renamed = 0
+			pkgs, err = packages.Load(cfg, "./...")
+			if err != nil {
+				return nil, fmt.Errorf("packages.Load: %w", err)
+			}
+		}
+	}
+	p := &Program{Root: root, Fset: fset, byPath: map[string]*packages.Package{}, GOARCH: goarch, AlphaRenamed: renamed}
 	var errs []string
 	for _, pkg := range pkgs {
 		for _, e := range pkg.Errors {
